@@ -375,4 +375,186 @@ example : ChainSh.events { its := [[1, 2], [], [3]], gens := [] }
       [.start (), .next 0, .start (), .next 1, .next 0, .next 0, .next 1]
     = [.value 0 1, .value 1 2, .value 0 3, .stop 0, .stop 1] := by decide
 
+/-! ### `fill_into` of `Slice(start, stop, step)` as constructed (all call forms, `None` defaults) -/
+
+/-- what the constructor builds for non-negative arguments and a good step: the `islice` kind and the initial
+`fill_into` state — the `None` defaults (`start → 0`, `step → 1`) are applied here, in the model -/
+theorem mkSliceInst_nonneg (start stop step : Option Int) (hs : GoodStep step)
+    (h1 : noneOrNonneg start = true) (h2 : noneOrNonneg stop = true) :
+    mkSliceInst start stop step
+      = some { kind := .islice (start.getD 0).toNat (stop.map Int.toNat) ((step.getD 1).toNat),
+               fill := fillInit (start.getD 0).toNat } := by
+  unfold mkSliceInst
+  rw [mkSlice_good start stop step hs]
+  simp [h1, h2]
+
+private theorem adj_start_nn (n : Nat) (start : Option Int) (h : noneOrNonneg start = true) :
+    adj n (some ((start.getD 0).toNat : Int)) 0 = adj n start 0 := by
+  cases start with
+  | none => simp [adj]
+  | some a =>
+    have : 0 ≤ a := by simpa [noneOrNonneg] using h
+    have e : ((a.toNat : Nat) : Int) = a := by omega
+    simp only [Option.getD_some, e]
+
+private theorem adj_stop_nn (n : Nat) (stop : Option Int) (h : noneOrNonneg stop = true) :
+    adj n ((stop.map Int.toNat).map Int.ofNat) n = adj n stop n := by
+  cases stop with
+  | none => rfl
+  | some a =>
+    have : 0 ≤ a := by simpa [noneOrNonneg] using h
+    have e : Int.ofNat a.toNat = a := by simp only [Int.ofNat_eq_natCast]; omega
+    simp only [Option.map_some, e]
+
+/-- **"its fill_into route fills exactly the same values for non-negative arguments"**, for the object
+`Slice(start, stop, step)` itself: for all non-negative or `None` `start`, `stop`, every step `None` or `≥ 1`
+and every finite flow fed value by value, the values passed to `element.fill` are `xs[start:stop:step]`. -/
+theorem slice_fill_into_eq {α : Type} (start stop step : Option Int) (hs : GoodStep step)
+    (h1 : noneOrNonneg start = true) (h2 : noneOrNonneg stop = true) (xs : List α) :
+    ∃ st, sliceFillAll start stop step xs
+      = .filled (pySlice xs start stop ((step.getD 1).toNat)) st := by
+  have hstep : 1 ≤ (step.getD 1).toNat := by have := goodStep_getD hs; omega
+  refine ⟨(fillAll (stop.map Int.toNat) (step.getD 1).toNat (fillInit (start.getD 0).toNat) 0 xs).2, ?_⟩
+  simp only [sliceFillAll, mkSliceInst_nonneg start stop step hs h1 h2]
+  rw [fill_into_eq _ _ _ hstep xs]
+  unfold pySlice
+  simp only [adj_start_nn _ _ h1, adj_stop_nn _ _ h2]
+
+/-- **"raises LenaStopFill only when no later value could be selected"** for the object as constructed: if
+`LenaStopFill` is raised while value number `i` is filled, then `stop` is an integer and every selected index
+`start + k*step` that is `≥ i` is `≥ stop` (`start`, `step` with their `None` defaults). -/
+theorem slice_stopfill_only_when_done {α : Type} (start stop step : Option Int) (hs : GoodStep step)
+    (h1 : noneOrNonneg start = true) (h2 : noneOrNonneg stop = true) (xs ys : List α) (i : Nat)
+    (h : sliceFillAll start stop step xs = .filled ys (some i)) :
+    ∃ st : Int, stop = some st ∧
+      ∀ k : Nat, (i : Int) ≤ start.getD 0 + k * step.getD 1 → st ≤ start.getD 0 + k * step.getD 1 := by
+  have hg := goodStep_getD hs
+  have hstep : 1 ≤ (step.getD 1).toNat := by omega
+  simp only [sliceFillAll, mkSliceInst_nonneg start stop step hs h1 h2, FillRun.filled.injEq] at h
+  obtain ⟨n, hn, hall⟩ := stopfill_only_when_done _ _ _ hstep xs i h.2
+  cases stop with
+  | none => simp at hn
+  | some b =>
+    have hb : 0 ≤ b := by simpa [noneOrNonneg] using h2
+    have ha : 0 ≤ start.getD 0 := by
+      cases start with
+      | none => simp
+      | some a => simpa [noneOrNonneg] using h1
+    refine ⟨b, rfl, ?_⟩
+    intro k hk
+    simp only [Option.map_some, Option.some.injEq] at hn
+    have e1 : ((start.getD 0).toNat : Int) = start.getD 0 := by omega
+    have e2 : ((step.getD 1).toNat : Int) = step.getD 1 := by omega
+    have hk' : i ≤ (start.getD 0).toNat + k * (step.getD 1).toNat := by
+      have : ((i : Nat) : Int) ≤ (((start.getD 0).toNat + k * (step.getD 1).toNat : Nat) : Int) := by
+        rw [Int.natCast_add, Int.natCast_mul, e1, e2]; exact hk
+      exact Int.ofNat_le.mp this
+    have := hall k hk'
+    have h3 : ((n : Nat) : Int) ≤ (((start.getD 0).toNat + k * (step.getD 1).toNat : Nat) : Int) :=
+      Int.ofNat_le.mpr this
+    rw [Int.natCast_add, Int.natCast_mul, e1, e2] at h3
+    omega
+
+example : sliceFillAll (α := Int) none (some 3) none [10, 11, 12, 13, 14] = .filled [10, 11, 12] (some 3) := by
+  decide
+example : sliceFillAll (α := Int) (some 1) (some 6) (some 2) [0, 1, 2, 3, 4, 5, 6, 7]
+    = .filled [1, 3, 5] (some 6) := by decide
+
+/-! ### the exact index of `LenaStopFill` -/
+
+theorem stopIdx_filled (c st step : Nat) (hs : 1 ≤ step) (hlt : c < st) :
+    stopIdx (c + step) (c + 1) st step = stopIdx c c st step := by
+  have h1 : ¬ (st ≤ c) := by omega
+  simp only [stopIdx, h1, if_false]
+  by_cases h2 : st ≤ c + step
+  · have : (st - c - 1) / step = 0 := Nat.div_eq_of_lt (by omega)
+    simp [h2, this]
+  · have e : st - c - 1 = (st - (c + step) - 1) + step := by omega
+    have hd : (st - c - 1) / step = (st - (c + step) - 1) / step + 1 := by
+      rw [e, Nat.add_div_right _ (by omega)]
+    simp only [h2, if_false, hd, Nat.succ_mul]
+    omega
+
+/-- where `fill_into` raises `LenaStopFill`, exactly (general position of the index iterator) -/
+theorem fillAll_stop_exact {α : Type} (st step : Nat) (hs : 1 ≤ step) :
+    ∀ (xs : List α) (next cnt : Nat) (s : FillState), FillGood (some st) step next cnt s →
+      (fillAll (some st) step s cnt xs).2 =
+        if stopIdx next cnt st step < cnt + xs.length then some (stopIdx next cnt st step) else none
+  | [], next, cnt, s, hg => by
+    have hle : cnt ≤ next := hg.2.1
+    have : ¬ (stopIdx next cnt st step < cnt + 0) := by
+      unfold stopIdx; split <;> omega
+    simp only [fillAll, List.length_nil, this, if_false]
+  | x :: rest, next, cnt, s, hg => by
+    have hle : cnt ≤ next := hg.2.1
+    have hstep := fillInto_step (some st) step hs next cnt s hg
+    generalize hfi : fillInto (some st) step s = r at hstep
+    obtain ⟨s', o⟩ := r
+    simp only at hstep
+    rcases hstep with ⟨⟨st', hst', hle'⟩, _, rfl⟩ | ⟨hlt, ⟨rfl, rfl, hg'⟩ | ⟨hne, rfl, hg'⟩⟩
+    · cases hst'
+      have e : stopIdx next cnt st step = cnt := by simp [stopIdx, hle']
+      simp only [fillAll, hfi, e, List.length_cons]
+      have : cnt < cnt + (rest.length + 1) := by omega
+      simp [this]
+    · have hlt' := hlt st rfl
+      simp only [fillAll, hfi, List.length_cons]
+      rw [fillAll_stop_exact st step hs rest _ _ s' hg', stopIdx_filled cnt st step hs hlt']
+      have : cnt + 1 + rest.length = cnt + (rest.length + 1) := by omega
+      rw [this]
+    · have hlt' := hlt st rfl
+      have h1 : ¬ (st ≤ next) := by omega
+      have e : stopIdx next (cnt + 1) st step = stopIdx next cnt st step := by
+        simp only [stopIdx, h1, if_false]
+      simp only [fillAll, hfi, List.length_cons]
+      rw [fillAll_stop_exact st step hs rest _ _ s' hg', e]
+      have : cnt + 1 + rest.length = cnt + (rest.length + 1) := by omega
+      rw [this]
+
+/-- **exactly when `LenaStopFill` is raised**: with `stop = st`, feeding `xs` raises it at value number
+`stopIdx start 0 st step` — 0 if nothing is selected (`st ≤ start`), otherwise one past the last selected index
+`start + ⌊(st−start−1)/step⌋·step` (so, for `step > 1`, possibly before `st`: the "early exceptions" of the
+docstring) — provided the flow is long enough to get there; otherwise it is not raised.  Both directions: the model
+does raise it, and nowhere else. -/
+theorem stopfill_exact {α : Type} (start st step : Nat) (hs : 1 ≤ step) (xs : List α) :
+    (fillAll (some st) step (fillInit start) 0 xs).2 =
+      if stopIdx start 0 st step < xs.length then some (stopIdx start 0 st step) else none := by
+  have := fillAll_stop_exact st step hs xs start 0 (fillInit start) (fillGood_init (some st) step start)
+  simpa only [Nat.zero_add] using this
+
+/-- without a `stop`, `LenaStopFill` is never raised -/
+theorem stopfill_never_without_stop {α : Type} (start step : Nat) (hs : 1 ≤ step) (xs : List α) :
+    (fillAll none step (fillInit start) 0 xs).2 = none := by
+  cases h : (fillAll none step (fillInit start) 0 xs).2 with
+  | none => rfl
+  | some i =>
+    obtain ⟨st, hst, _⟩ := stopfill_only_when_done start none step hs xs i h
+    cases hst
+
+example : stopIdx 1 0 6 2 = 6 ∧ stopIdx 0 0 6 4 = 5 ∧ stopIdx 3 0 2 1 = 0 := by decide
+example : (fillAll (some 6) 4 (fillInit 0) 0 [0, 1, 2, 3, 4, 5, 6, 7]).2 = some 5 := by decide
+
+/-! ### bad steps, all call forms and kinds -/
+
+/-- **"rejects other steps with LenaValueError at construction"** with the `sys.maxsize` limits in the model:
+an integer step `≤ 0`, whatever `start` and `stop` are -/
+theorem mkSliceMS_rejects_bad_step (ms : Nat) (start stop : Option Int) (s : Int) (hs : s ≤ 0) :
+    mkSliceMS ms start stop (some s) = .valueError := by
+  unfold mkSliceMS
+  rw [slice_rejects_bad_step start stop s hs]
+  split
+  · split <;> rfl
+  · split <;> rfl
+
+/-- the same for every call form that has a step (`Slice(start, stop, step)`, `ISlice(...)`) -/
+theorem sliceOfArgs_rejects_bad_step (ms : Nat) (a b : Option Int) (s : Int) (hs : s ≤ 0) :
+    sliceOfArgs ms [a, b, some s] = some .valueError := by
+  simp only [sliceOfArgs, argsTriple, Option.map_some, mkSliceMS_rejects_bad_step ms a b s hs]
+
+/-- a float step is rejected at construction (definitional: `mkSliceStepArg` says what the code does) -/
+theorem slice_rejects_float_step (ms : Nat) (start stop : Option Int) :
+    mkSliceStepArg ms start stop .float = .valueError := rfl
+
+example : sliceOfArgs 100 [some (-3), none, some 0] = some .valueError := by decide
+
 end Lena.C17
